@@ -89,6 +89,9 @@ def record_everything(chk, quick, rng):
         cfgs = [
             {"sim": "ns2", "shape": (8, 10), "forcing": True, "free_stream": True, "w": 2},
             {"sim": "ns2", "shape": (8, 8), "forcing": False, "free_stream": False, "w": 0},
+            {"sim": "ns2", "shape": (8, 9), "forcing": True, "free_stream": False, "w": 1},
+            {"sim": "ns2", "shape": (9, 8), "forcing": False, "free_stream": True, "w": 2},
+            {"sim": "ns3", "shape": (6, 7, 6), "forcing": False, "free_stream": True, "filter": "off", "w": 2},
             {"sim": "ns3", "shape": (6, 7, 8), "forcing": True, "free_stream": True, "filter": "multiplicative", "order": 2, "w": 2},
             {"sim": "ns3", "shape": (6, 6, 7), "forcing": False, "free_stream": False, "filter": "convolution", "order": 1, "w": 1, "solver": "fast_diagonalisation"},
             {"sim": "ns3", "shape": (6, 6, 6), "forcing": True, "free_stream": False, "filter": "off", "w": 3},
